@@ -697,6 +697,8 @@ class Bits:
             length = len(self)
         if length is None or length == 0:
             raise bitstring.CreationError("A non-zero length must be specified with a uintbe initialiser.")
+        if length % 8:
+            raise bitstring.CreationError(f"Big-endian integers must be whole-byte. Length = {length} bits.")
         self._bitstore = bitstore_helpers.int2bitstore(uintbe, length, False)
 
     def _getuintbe(self) -> int:
@@ -711,6 +713,8 @@ class Bits:
             length = len(self)
         if length is None or length == 0:
             raise bitstring.CreationError("A non-zero length must be specified with a intbe initialiser.")
+        if length % 8:
+            raise bitstring.CreationError(f"Big-endian integers must be whole-byte. Length = {length} bits.")
         self._bitstore = bitstore_helpers.int2bitstore(intbe, length, True)
 
     def _getintbe(self) -> int:
